@@ -17,7 +17,7 @@ ID = "C16"
 LEVEL = "exploration"
 RULE = ("random parent domains (1-5 parents, inner lists of length 0-4 drawn with repetition from 5 element objects, so lists "
         "overlap and repeat; a scalar attribute as well) x selection {elem | parent,elem | elem,parent} x condition "
-        "{none | elem.n>t | parent.k>t | both | elem joined with another variable} x caching on/off; results compared as "
+        "{none | elem.n>t | parent.k>t | both | elem joined with another variable | or_ / and_ / several / negated conditions on the element} x caching on/off; results compared as "
         "multisets of identities. Non-trivial: at least two parents have different non-empty lists and the result is "
         "neither empty nor everything. distinct by structural hash.")
 LEVEL_TEXT = ("Reference-model monitoring: rows of the real flatten query compared by identity and multiplicity with the "
@@ -54,7 +54,7 @@ def plan(tier, seed):
 
 def floors(tier):
     return {"distinct_nontrivial": 400, "cls:sel:elem": 500, "cls:sel:parent_elem": 500, "cls:sel:elem_parent": 300,
-            "cls:cond:none": 300, "cls:cond:elem": 300, "cls:cond:parent": 300, "cls:cond:both": 300, "cls:cond:join": 300,
+            "cls:cond:none": 200, "cls:cond:elem": 200, "cls:cond:parent": 200, "cls:cond:both": 200, "cls:cond:join": 200, "cls:cond:elem_or": 200, "cls:cond:elem_stacked": 200, "cls:cond:elem_and": 200, "cls:cond:elem_not": 200,
             "cls:scalar": 200, "cls:has_empty_list": 500, "cls:has_repeated_element": 500, "re:Flatten(@.*)?\\.enter": 2000}
 
 
@@ -67,7 +67,8 @@ def gen_world(rng):
 
 def gen_case(rng):
     return {"world": gen_world(rng), "sel": rng.choice(["elem", "parent_elem", "parent_elem", "elem_parent"]),
-            "cond": rng.choice(["none", "elem", "parent", "both", "join"]), "thr": rng.randint(1, 4), "kthr": rng.randint(0, 3),
+            "cond": rng.choice(["none", "elem", "parent", "both", "join", "elem_or", "elem_stacked", "elem_and", "elem_not"]),
+            "thr": rng.randint(1, 4), "kthr": rng.randint(0, 3), "thr2": rng.randint(1, 5),
             "scalar": rng.random() < 0.15, "caching": rng.random() < 0.7}
 
 
@@ -91,6 +92,15 @@ def expected(case, es, ps):
             c = case["cond"]
             if c in ("elem", "both") and not x.n > case["thr"]:
                 ok = False
+            t2 = case.get("thr2", 1)
+            if c == "elem_or":
+                ok = x.n > case["thr"] or x.n == t2
+            if c == "elem_stacked":
+                ok = x.n >= 0 and x.n > case["thr"]
+            if c == "elem_and":
+                ok = x.n >= t2 and x.n <= case["thr"] + 1
+            if c == "elem_not":
+                ok = not (x.n > case["thr"] and p.k > case["kthr"])
             if c in ("parent", "both") and not p.k > case["kthr"]:
                 ok = False
             if c == "join":
@@ -103,7 +113,7 @@ def expected(case, es, ps):
 
 
 def run(case, es, ps, caching, times=1):
-    from entity_query_language import symbolic_mode, an, entity, set_of, let
+    from entity_query_language import symbolic_mode, an, entity, set_of, let, and_, or_, not_
     from entity_query_language.entity import flatten
     from entity_query_language.cache_data import enable_caching, disable_caching
     lab = {id(e): f"E{i}" for i, e in enumerate(es)}
@@ -117,6 +127,15 @@ def run(case, es, ps, caching, times=1):
             c = case["cond"]
             if c in ("elem", "both"):
                 conds.append(e.n > case["thr"])
+            t2 = case.get("thr2", 1)
+            if c == "elem_or":
+                conds.append(or_(e.n > case["thr"], e.n == t2))
+            if c == "elem_stacked":
+                conds += [e.n >= 0, e.n > case["thr"]]
+            if c == "elem_and":
+                conds.append(and_(e.n >= t2, e.n <= case["thr"] + 1))
+            if c == "elem_not":
+                conds.append(not_(and_(e.n > case["thr"], p.k > case["kthr"])))
             if c in ("parent", "both"):
                 conds.append(p.k > case["kthr"])
             if c == "join":
@@ -144,6 +163,11 @@ def run(case, es, ps, caching, times=1):
         enable_caching()
 
 
+def run_for_c05(case, caching, times):
+    es, ps = build_world(case["world"])
+    return run(case, es, ps, caching, times), expected(case, es, ps), False
+
+
 def check_case(case, ctx):
     es, ps = build_world(case["world"])
     exp = expected(case, es, ps)
@@ -166,10 +190,19 @@ def check_case(case, ctx):
         import traceback
         ctx.fail("EXC", f"{type(e).__name__}: {e}\n{traceback.format_exc()[-700:]}")
         return
-    if Counter(got) != Counter(exp):
-        miss = list((Counter(exp) - Counter(got)).elements())
-        extra = list((Counter(got) - Counter(exp)).elements())
+    # An object that occurs twice in ONE inner list gives two identical (parent, element) bindings.  UNNEST would return
+    # both, C02 says an identical row is not returned twice; the statement's quantifier does not mention such lists, so
+    # for them the multiplicity may be anything between "once per distinct (parent, element)" and "once per occurrence".
+    upper = Counter(exp)
+    lower = Counter(expected(case, es, [Par(p.k, list(dict.fromkeys(p.items)), p.one) for p in ps]))
+    g = Counter(got)
+    miss = list((lower - g).elements())
+    extra = list((g - upper).elements())
+    if miss or extra:
         kind = ("SET:" if set(got) != set(exp) else "MULTIPLICITY:") + ("missing" if miss else "") + ("+extra" if extra else "")
-        ctx.fail(kind, {"missing": miss[:8], "extra": extra[:8], "n_expected": len(exp), "n_observed": len(got)})
+        ctx.fail(kind, {"missing": miss[:8], "extra": extra[:8], "n_expected": [sum(lower.values()), sum(upper.values())],
+                        "n_observed": len(got)})
+    elif upper != lower and g != upper:
+        ctx.count("repeated_element_in_one_list_collapsed")
     ctx.sample({"parents": case["world"]["parents"], "select": case["sel"], "condition": case["cond"], "scalar": case["scalar"],
                 "expected": exp[:6], "observed": got[:6]})
